@@ -333,7 +333,10 @@ int main (int argc, char *argv[]) {
                 }
             }
         }
-        write_data(zck, data + start, in_size - (start + matched));
+        /* The block may lie entirely inside a match carried over from the
+         * previous block, in which case there's nothing to write */
+        if(in_size - (start + matched) > 0)
+            write_data(zck, data + start, in_size - (start + matched));
     }
 
     close(in_fd);
